@@ -89,3 +89,66 @@ contract(TB, 'TypeBlocks.append',
         f'implies(W(block) > 0, not at(self._blocks, {_OLDB}).writeable and at(self._blocks, {_OLDB}).dtype == block.dtype and at(self._blocks, {_OLDB}).rows == block.rows and W(at(self._blocks, {_OLDB})) == W(block) and implies(block.writeable, at(self._blocks, {_OLDB}).fresh))',
         'Dir(self)', 'Frozen(self)', 'RowDtypeHolds(self)',
     ])
+
+# ---------------------------------------------------------------------------------------------
+# TypeBlocks.from_blocks establishes Dir / Frozen (the representation invariant every other contract relies on)
+predicate('DirParts', ['blocks', 'index', 'dtypes', 'rows', 'ncols', 'offs'], ' and '.join([
+    'len(index) == ncols and len(dtypes) == ncols and rows >= 0',
+    'forall_in(0, len(blocks), lambda k: W(at(blocks, k)) >= 1 and at(blocks, k).rows == rows and (at(blocks, k).ndim == 1 or at(blocks, k).ndim == 2) and not at(blocks, k).writeable)',
+    'forall_in(0, len(index), lambda c: 0 <= at(index, c)[0] and at(index, c)[0] < len(blocks) and 0 <= at(index, c)[1] and at(index, c)[1] < W(at(blocks, at(index, c)[0])) and at(dtypes, c) == at(blocks, at(index, c)[0]).dtype)',
+    'forall_in(0, len(index) - 1, lambda c: (at(index, c + 1)[0] == at(index, c)[0] and at(index, c + 1)[1] == at(index, c)[1] + 1) or (at(index, c + 1)[0] == at(index, c)[0] + 1 and at(index, c + 1)[1] == 0 and at(index, c)[1] == W(at(blocks, at(index, c)[0])) - 1))',
+    'implies(len(index) > 0, at(index, 0)[0] == 0 and at(index, 0)[1] == 0 and at(index, len(index) - 1)[0] == len(blocks) - 1 and at(index, len(index) - 1)[1] == W(at(blocks, len(blocks) - 1)) - 1)',
+    'implies(len(index) == 0, len(blocks) == 0)',
+    'len(offs) == len(blocks) + 1 and at(offs, 0) == 0 and at(offs, len(blocks)) == ncols',
+    'forall_in(0, len(blocks), lambda k: at(offs, k + 1) == at(offs, k) + W(at(blocks, k)) and 0 <= at(offs, k) and at(offs, k + 1) <= ncols)',
+]))
+
+# the raw constructor: fields are the arguments (ghost offsets supplied by the caller's ghost code); _row_dtype by resolve_dtype_iter (assumed fold)
+contract(TB, 'TypeBlocks.__init__', key='TypeBlocks.__raw__', assumed=True,
+    params=dict(blocks='list[arr]', dtypes='list[dtype]', index='list[tuple[int,int]]', shape='tuple[int,int]'),
+    ghost_params=dict(offs='list[int]'),
+    order=['blocks', 'dtypes', 'index', 'shape'], result='TypeBlocks',
+    ensures=['result._blocks == blocks and result._dtypes == dtypes and result._index == index and result._shape == shape and result._offs == offs',
+             'RowDtypeHolds(result) and implies(len(blocks) == 0, is_none(result._row_dtype))'])
+contract(UTIL, 'shape_filter', key='shape_filter', assumed=False,
+    props=['C03'],
+    params=dict(array='arr'), order=['array'], result='tuple[int,int]',
+    requires=['array.ndim == 1 or array.ndim == 2'],
+    ensures=['result[0] == array.rows', 'result[1] == W(array)'])
+
+_ROWS = 'cond(is_none(row_count), -1, row_count)'
+contract(TB, 'TypeBlocks.from_blocks',
+    props=['C01', 'C03', 'C09'],
+    params=dict(raw_blocks='list[arr]', shape_reference='opt[tuple[int,int]]'), order=['raw_blocks', 'shape_reference'],
+    variants=[dict(raw_blocks='list[arr]'), dict(raw_blocks='arr')],
+    result='TypeBlocks',
+    requires=['implies(not is_none(shape_reference), shape_reference[0] >= 0)'],
+    requires_variant={0: ['forall_in(0, len(raw_blocks), lambda k: at(raw_blocks, k).ndim >= 1)'], 1: ['raw_blocks.ndim >= 1']},     # blocks are 1-D / 2-D (or more: rejected) arrays
+    raises={'ErrorInitTypeBlocks': True},
+    call_ghosts={'TypeBlocks.__raw__': dict(offs='offs')},
+    ghost_init=['offs = [0]'],
+    ghost_after={'blocks.append(immutable_filter(raw_blocks))': ['offs.append(column_count)'],
+                 'blocks.append(immutable_filter(block))': ['index_before = index', 'dtypes_before = dtypes'],
+                 'column_count += c': ['offs.append(column_count)']},
+    n_loops=3,
+    loops={
+        # single-array branch: the one block is already stored; columns 0..i-1 are indexed
+        0: dict(index='i', locals=dict(index='list[tuple[int,int]]', dtypes='list[dtype]'), invariant=[
+            'len(index) == i and len(dtypes) == i and len(blocks) == 1 and block_count == 0',
+            'forall_in(0, i, lambda c: at(index, c)[0] == 0 and at(index, c)[1] == c and at(dtypes, c) == raw_blocks.dtype)']),
+        # iterable branch, outer loop: everything built so far is a well-formed directory over column_count columns
+        1: dict(index='t', locals=dict(blocks='list[arr]', dtypes='list[dtype]', index='list[tuple[int,int]]', row_count='opt[int]',
+                                       column_count='int', block_count='int', offs='list[int]', r='int', c='int'),
+                ghost_mods=['offs'],
+                invariant=[
+            'block_count == len(blocks) and column_count >= 0 and (is_none(row_count) or row_count >= 0)',
+            'implies(is_none(row_count), len(blocks) == 0)',
+            f'DirParts(blocks, index, dtypes, cond(is_none(row_count), 0, row_count), column_count, offs)']),
+        # inner loop: the new block is stored, its first i columns are indexed
+        2: dict(index='i', locals=dict(index='list[tuple[int,int]]', dtypes='list[dtype]'), invariant=[
+            'len(index) == column_count + i and len(dtypes) == column_count + i',
+            'forall_in(column_count, column_count + i, lambda q: at(index, q)[0] == block_count and at(index, q)[1] == q - column_count and at(dtypes, q) == block.dtype)',
+            # the part built before this block is unchanged (frame of the inner loop)
+            'forall_in(0, column_count, lambda q: at(index, q) == at(index_before, q) and at(dtypes, q) == at(dtypes_before, q))']),
+    },
+    ensures=['Dir(result)', 'Frozen(result)', 'RowDtypeHolds(result)', 'implies(len(result._blocks) == 0, is_none(result._row_dtype))'])
